@@ -30,6 +30,9 @@ func init() {
 		variant{Name: "benign-solexa-table-subscript-guarded", File: lett, Find: "\t\treturn (Qsolexa(q) - 64).Qphred()\n", Replace: "\t\tif q >= 0xc0 {\n\t\t\treturn 0xff\n\t\t}\n\t\treturn solexaPhredTable[int(q)-64+128]\n"},
 	)
 	add("C06",
+		variant{Name: "trim-start-moved-on-reset", File: utils, Find: "\t\t\tsum, begin = 0, i+1\n", Replace: "\t\t\tsum, start = 0, i+1\n", Rule: "trimwindow", Key: "sequtils.Trim/start-committed-with-end", More: []edit{{utils, "\t\t\tmax, start, end = sum, begin, i+1\n", "\t\t\tmax, end = sum, i+1\n"}}},
+		variant{Name: "trim-start-not-from-sequence-start", File: utils, Find: "\tbegin := q.Start()\n\tstart, end = begin, begin\n", Replace: "\tbegin := q.Start()\n\tend = begin\n", Rule: "trimwindow", Key: "sequtils.Trim/start-initialised-from-Start()"},
+		variant{Name: "benign-trim-best-window-in-locals", File: utils, Find: "\tstart, end = begin, begin\n\tfor i := q.Start(); i < q.End(); i++ {\n\t\tsum += limit - q.EAt(i)\n\t\tif sum < 0 {\n\t\t\tsum, begin = 0, i+1\n\t\t}\n\t\tif sum >= max {\n\t\t\tmax, start, end = sum, begin, i+1\n\t\t}\n\t}\n\treturn\n", Replace: "\tbestStart, bestEnd := begin, begin\n\tfor i := q.Start(); i < q.End(); i++ {\n\t\tsum += limit - q.EAt(i)\n\t\tif sum < 0 {\n\t\t\tsum, begin = 0, i+1\n\t\t}\n\t\tif sum >= max {\n\t\t\tmax, bestStart, bestEnd = sum, begin, i+1\n\t\t}\n\t}\n\treturn bestStart, bestEnd\n"},
 		variant{Name: "benign-compose-ranges-over-features", File: utils, Find: "\tfor i, ts := range t {\n\t\tif f, ok := ff[i].(feat.Orienter); ok && f.Orientation() == feat.Reverse {", Replace: "\tfor i, fi := range ff {\n\t\tts := t[i]\n\t\tif f, ok := fi.(feat.Orienter); ok && f.Orientation() == feat.Reverse {"},
 	)
 	add("C07",
